@@ -1,5 +1,5 @@
 (* Pinned statements of C02: re-checked on every run. *)
-From SF Require Import Base.Prelude Gen.Generated Unsized.Types Unsized.Parse Unsized.Machine Unsized.Ops Unsized.Run Unsized.Proofs.EncodeParse Unsized.Proofs.Mem Unsized.Proofs.Notify Unsized.Proofs.Flat Unsized.Proofs.Layout Unsized.Proofs.Observe Unsized.Proofs.Path Unsized.Proofs.Context Unsized.Proofs.FocusOps Unsized.Proofs.NotifyInside Unsized.Proofs.Resize Unsized.Proofs.GenOps Unsized.Proofs.History Unsized.Proofs.Init Unsized.Proofs.History2 Unsized.Proofs.ExecTie Unsized.Proofs.History3 Unsized.Proofs.Enums Properties.C02.
+From SF Require Import Base.Prelude Gen.Generated Unsized.Types Unsized.Parse Unsized.Machine Unsized.Ops Unsized.Run Unsized.Proofs.EncodeParse Unsized.Proofs.Mem Unsized.Proofs.Notify Unsized.Proofs.Flat Unsized.Proofs.Layout Unsized.Proofs.Observe Unsized.Proofs.Path Unsized.Proofs.Context Unsized.Proofs.FocusOps Unsized.Proofs.NotifyInside Unsized.Proofs.Resize Unsized.Proofs.GenOps Unsized.Proofs.History Unsized.Proofs.Init Unsized.Proofs.History2 Unsized.Proofs.ExecTie Unsized.Proofs.History3 Unsized.Proofs.Enums Unsized.Proofs.InitKinds Unsized.Proofs.StringSet Properties.C02.
 
 Check (C02_all_ops_canonical_after_any_history :
   forall ovf t h v s top pi0 v',
@@ -10,6 +10,11 @@ Check (C02_canonical_after_any_full_history :
   forall ovf t h v s top pi0 v' obss,
     RepF pi0 t v s top -> m_refuse s <> 1 -> orunZ (m_cap s) t v h = Some (v', obss) ->
     exists s' top', mrunZ ovf t s top h = Ok (s', top', obss) /\
+      ztake (m_len s') (m_mem s') = encode t v' /\ m_len s' = byte_size t v').
+Check (C02_canonical_after_any_history_of_every_operation :
+  forall ovf t h v s top pi0 v' obss,
+    RepF pi0 t v s top -> m_refuse s <> 1 -> orunS (m_cap s) t v h = Some (v', obss) ->
+    exists s' top', mrunS ovf t s top h = Ok (s', top', obss) /\
       ztake (m_len s') (m_mem s') = encode t v' /\ m_len s' = byte_size t v').
 Check (C02_general_canonical_after_any_history :
   forall ovf t h v s top pi0 v' l,
@@ -31,6 +36,7 @@ Check (C02_any_reader_sees_the_value :
 
 Print Assumptions C02_all_ops_canonical_after_any_history.
 Print Assumptions C02_canonical_after_any_full_history.
+Print Assumptions C02_canonical_after_any_history_of_every_operation.
 Print Assumptions C02_general_canonical_after_any_history.
 Print Assumptions C02_flat_canonical_after_any_history.
 Print Assumptions C02_encode_size.
